@@ -187,6 +187,31 @@ theorem invCore_authenticate {cfg : Cfg} {c : Nat} {x : Ctx} (h : InvCore x.w) (
       rw [e_conns]
       exact setConn_conns_ids _ _
 
+/-- `World.addUser` on its own breaks `userOwned` (nobody owns the new user yet); together with the
+    update of the registering connection's record it preserves `InvCore`: `cn` live and
+    unauthenticated, `nick` free, the new record `cn'` authenticated under `nick`, the new user owned
+    by it, in no channel, not killed. -/
+theorem invCore_addUser {w : World} (h : InvCore w) {cn cn' : Conn} {nick : Str} {u : User}
+    (hm : cn ∈ w.conns) (hu : cn.authenticated = false) (hfree : Map.lookup nick w.users = none)
+    (hid : cn'.id = cn.id) (ha' : cn'.authenticated = true) (hn' : cn'.nick = some nick)
+    (huo : u.owner = cn.id) (huc : u.channels = []) (huk : u.killed = false) :
+    InvCore ((w.addUser nick u).setConn cn') ∧ SameConnIds w ((w.addUser nick u).setConn cn') := by
+  have e_conns : ((w.addUser nick u).setConn cn').conns = (w.setConn cn').conns := by
+    rw [World.setConn_conns, World.addUser_conns, ← World.setConn_conns]
+  constructor
+  · apply invCore_register h hm hu hfree hid ha' hn' huo huc huk e_conns
+    · rw [World.setConn_users, World.addUser_users]
+    · rw [World.setConn_channels, World.addUser_channels]
+    · rw [World.setConn_wallops, World.addUser_wallops]
+    · rw [World.setConn_invisibleCount, World.addUser_invisibleCount]
+    · rw [World.setConn_operatorsCount, World.addUser_operatorsCount]
+    · rw [World.setConn_users, World.setConn_maxUsers]; exact World.addUser_maxUsers _ _ _
+    · rw [World.setConn_connsCount, World.addUser_connsCount]
+    · rw [World.setConn_panicked, World.addUser_panicked]; exact h.noPanic
+  · unfold SameConnIds
+    rw [e_conns]
+    exact setConn_conns_ids _ _
+
 /-- an unauthenticated connection updates its own record (staying unauthenticated, keeping its
     resources) and then tries to register -/
 theorem Reg.invCore_setConn_authenticate {cfg : Cfg} {c : Nat} {x : Ctx} {cn' : Conn} (h : InvCore x.w)
@@ -598,5 +623,111 @@ theorem registered_nick_only_own_key {cfg : Cfg} {c : Nat} {nick old : Str} {msg
   rcases hcase with e | ⟨_, _, e⟩
   · rw [e]
   · rw [e, Map.lookup_rekey, if_neg (fun e => h2 e.symm), if_neg (fun e => h1 e.symm)]
+
+/-! ### non-vacuity: the hypotheses are satisfiable and the conclusions say something
+
+A concrete run: two fresh connections; connection 1 sends NICK a / USER a, connection 2 sends
+NICK c / USER c, then connection 1 renames itself to b. -/
+
+/-- two fresh connections, nobody registered -/
+def Reg.exW0 : World := { conns := [Conn.new 1 (str "h"), Conn.new 2 (str "g")], connsCount := 2 }
+
+theorem Reg.exW0_inv : InvCore exW0 := by
+  refine
+    { noPanic := rfl, usersNodup := List.nodup_nil, chansNodup := List.nodup_nil,
+      connsNodup := by decide, membersNodup := ?_, userChansNodup := ?_, authOwns := ?_,
+      userOwned := ?_, memberSym := ?_, memberIsUser := ?_, rankMirror := ?_, noEmptyAdHoc := ?_,
+      invisibleCount := rfl, operatorsCount := rfl, wallopsSet := ?_, maxUsers := Nat.le_refl _,
+      resources := ?_, slots := rfl, killedFlagged := ?_ }
+  · intro ch C h; cases h
+  · intro n u h; cases h
+  · intro cn hm ha
+    simp only [exW0, List.mem_cons, List.not_mem_nil, or_false] at hm
+    rcases hm with rfl | rfl <;> cases ha
+  · intro n u h; cases h
+  · intro n u ch h; cases h
+  · intro ch C n h; cases h
+  · intro ch C h; cases h
+  · intro ch C h; cases h
+  · intro n
+    constructor
+    · intro h; cases h
+    · rintro ⟨u, h, _⟩; cases h
+  · intro cn hm _
+    simp only [exW0, List.mem_cons, List.not_mem_nil, or_false] at hm
+    rcases hm with rfl | rfl <;> exact ⟨rfl, rfl, rfl⟩
+  · intro n u h; cases h
+
+def Reg.exMsg (n : String) : Message := ⟨none, str "NICK", [str n]⟩
+def Reg.exX1 : Ctx := processNick {} 1 (str "a") (exMsg "a") { w := exW0 }
+def Reg.exX2 : Ctx := processUser {} 1 (str "a") (str "r") exX1
+def Reg.exX3 : Ctx := processNick {} 2 (str "c") (exMsg "c") exX2
+def Reg.exX4 : Ctx := processUser {} 2 (str "c") (str "r") exX3
+def Reg.exX5 : Ctx := processNick {} 1 (str "b") (exMsg "b") exX4
+
+theorem Reg.exW0_live (c : Nat) (hc : c = 1 ∨ c = 2) : Live exW0 c := by
+  rcases hc with rfl | rfl
+  · exact ⟨_, List.mem_cons_self .., rfl⟩
+  · exact ⟨_, List.mem_cons_of_mem _ (List.mem_cons_self ..), rfl⟩
+
+/-- every state of the run satisfies `InvCore` and keeps both connections (by the theorems above) -/
+theorem Reg.ex_run_inv (c : Nat) (hc : c = 1 ∨ c = 2) :
+    (InvCore exX1.w ∧ Live exX1.w c) ∧ (InvCore exX2.w ∧ Live exX2.w c) ∧
+    (InvCore exX3.w ∧ Live exX3.w c) ∧ (InvCore exX4.w ∧ Live exX4.w c) ∧
+    (InvCore exX5.w ∧ Live exX5.w c) := by
+  have l0 : ∀ c, c = 1 ∨ c = 2 → Live exW0 c := exW0_live
+  have s1 := invCore_processNick (cfg := {}) (nick := str "a") (msg := exMsg "a")
+    (x := { w := exW0 }) exW0_inv (l0 1 (Or.inl rfl))
+  have l1 : ∀ c, c = 1 ∨ c = 2 → Live exX1.w c := fun c hc => Live.of_same s1.2 (l0 c hc)
+  have s2 := invCore_processUser (cfg := {}) (username := str "a") (realname := str "r")
+    (x := exX1) s1.1 (l1 1 (Or.inl rfl))
+  have l2 : ∀ c, c = 1 ∨ c = 2 → Live exX2.w c := fun c hc => Live.of_same s2.2 (l1 c hc)
+  have s3 := invCore_processNick (cfg := {}) (nick := str "c") (msg := exMsg "c")
+    (x := exX2) s2.1 (l2 2 (Or.inr rfl))
+  have l3 : ∀ c, c = 1 ∨ c = 2 → Live exX3.w c := fun c hc => Live.of_same s3.2 (l2 c hc)
+  have s4 := invCore_processUser (cfg := {}) (username := str "c") (realname := str "r")
+    (x := exX3) s3.1 (l3 2 (Or.inr rfl))
+  have l4 : ∀ c, c = 1 ∨ c = 2 → Live exX4.w c := fun c hc => Live.of_same s4.2 (l3 c hc)
+  have s5 := invCore_processNick (cfg := {}) (nick := str "b") (msg := exMsg "b")
+    (x := exX4) s4.1 (l4 1 (Or.inl rfl))
+  have l5 : ∀ c, c = 1 ∨ c = 2 → Live exX5.w c := fun c hc => Live.of_same s5.2 (l4 c hc)
+  exact ⟨⟨s1.1, l1 c hc⟩, ⟨s2.1, l2 c hc⟩, ⟨s3.1, l3 c hc⟩, ⟨s4.1, l4 c hc⟩, ⟨s5.1, l5 c hc⟩⟩
+
+-- `invCore_authenticate`, `authenticate_users_grow_only`, `unregistered_…`: an unauthenticated live
+-- connection exists (conn 1 in `exX1`); the first alternative happens (NICK alone: still
+-- unregistered, `users` untouched) …
+example : (exX1.conn 1).authenticated = false ∧ exX1.w.users = [] := by decide
+-- … and the second alternative happens (USER completes the registration: one new user `a`, owner 1)
+example : (exX1.conn 1).authenticated = false ∧ (exX2.conn 1).authenticated = true ∧
+    Map.keys exX2.w.users = [str "a"] ∧ (Map.lookup (str "a") exX2.w.users).map (·.owner) = some 1 := by
+  decide
+-- the registration of connection 2 leaves the record of user `a` alone (`RegEffect.lookup_preserved`)
+example : (Map.lookup (str "a") exX2.w.users).isSome = true ∧
+    Map.lookup (str "a") exX4.w.users = Map.lookup (str "a") exX2.w.users ∧
+    Map.keys exX4.w.users = [str "a", str "c"] := by decide
+-- `registered_nick_*`: connection 1 is live and authenticated with nick `a` in `exX4`; the rename to
+-- `b` changes `users` (keys `a`, `b`) and keeps the entry of `c`
+example : (exX4.conn 1).authenticated = true ∧ (exX4.conn 1).nick = some (str "a") ∧
+    Map.keys exX5.w.users = [str "c", str "b"] ∧ (Map.lookup (str "c") exX5.w.users).isSome = true ∧
+    Map.lookup (str "c") exX5.w.users = Map.lookup (str "c") exX4.w.users ∧
+    (exX5.conn 1).nick = some (str "b") := by decide
+
+-- a rename of a channel member (hand-made world: `a` is operator of `#c`): no `unwrap` fails, the
+-- member map and the rank list are re-keyed
+def Reg.exW6 : World :=
+  { users := [(str "a",
+      { hostname := str "h", name := str "a", realname := str "r", source := str "a!~a@h", modes := {},
+        channels := [str "#c"], history := ⟨str "a", str "h", str "r"⟩, owner := 1 })]
+    channels := [(str "#c", { users := [(str "a", { operator := true })],
+                             modes := { operators := [str "a"] } })]
+    conns := [{ id := 1, hostname := str "h", nick := some (str "a"), name := some (str "a"),
+                source := str "a!~a@h", authenticated := true, hasSender := false,
+                hasQuitSender := false, hasPingSender := false }]
+    connsCount := 1, maxUsers := 1 }
+example :
+    let w := (processNick {} 1 (str "b") (exMsg "b") { w := exW6 }).w
+    w.panicked = none ∧ Map.keys w.users = [str "b"] ∧
+    (Map.lookup (str "#c") w.channels).map (fun C => (Map.keys C.users, C.modes.operators)) =
+      some ([str "b"], [str "b"]) := by decide
 
 end Irc
